@@ -603,7 +603,8 @@ public:
       /* call copy constructor for first elements */
       int i;
 
-      for(i = 0; i < old.thenum; i++)
+      /* the used slots are spread over the first thesize items (free slots in between carry the free list in info) */
+      for(i = 0; i < old.thesize; i++)
          new(&(theitem[i])) Item(old.theitem[i]);
 
       /* call default constructor for remaining elements */
